@@ -335,10 +335,16 @@ func cmsMergeCase(c *Ctx, rows, cols uint, redis bool) {
 	cfg := fmt.Sprintf("cms-merge(rows=%d,cols=%d,redis=%v)", rows, cols, redis)
 	c.rep.Cases++
 	pool := elemPool(c.rng, 4+c.rng.Intn(8), false)
+	counts := cmsCounts
+	if !redis {
+		// the in-memory counters are exact uint64s (the Redis ones are Lua doubles: exact below
+		// 2^53 only, a modelling assumption): magnitudes where a float64 detour loses bits
+		counts = append(append([]uint64(nil), cmsCounts...), 1<<53+1, 1<<53+1, 1<<57+3)
+	}
 	mk := func(n int) [][2]uint64 {
 		var ups [][2]uint64
 		for i := 0; i < n; i++ {
-			ups = append(ups, [2]uint64{uint64(c.rng.Intn(len(pool))), cmsCounts[c.rng.Intn(len(cmsCounts))]})
+			ups = append(ups, [2]uint64{uint64(c.rng.Intn(len(pool))), counts[c.rng.Intn(len(counts))]})
 		}
 		return ups
 	}
@@ -448,6 +454,35 @@ func cmsMergeCase(c *Ctx, rows, cols uint, redis bool) {
 	if len(ha) > 0 && len(hb) > 0 {
 		c.nontrivial(cfg + fmt.Sprint(ha, hb, hc))
 	}
+	// no sharing: two EMPTY receivers merge the same source; afterwards each of the three is
+	// updated on its own and none of the others may move
+	{
+		src, e1 := newCMS(rows, cols, redis)
+		r1, e2 := newCMS(rows, cols, redis)
+		r2, e3 := newCMS(rows, cols, redis)
+		if e1 == nil && e2 == nil && e3 == nil {
+			cmsFeed(src, pool, ha)
+			cmsFeed(src, pool, []([2]uint64){{0, 3}})
+			r1.Merge(src)
+			r2.Merge(src)
+			d0, _ := parseCMS(src.Export())
+			cmsFeed(r1, pool, hb)
+			cmsFeed(r1, pool, []([2]uint64){{uint64(len(pool) - 1), 5}})
+			d2, _ := parseCMS(r2.Export())
+			ds, _ := parseCMS(src.Export())
+			if matrixStr(d2.M) != matrixStr(d0.M) || matrixStr(ds.M) != matrixStr(d0.M) {
+				c.fail([]string{"C12", "C03", "C08"}, "cms-merge-shares-storage", fmt.Sprintf("%s: updating one sketch that merged a source changed the source or another sketch that merged the same source", cfg), replay)
+				return
+			}
+			cmsFeed(src, pool, []([2]uint64){{0, 7}})
+			d2b, _ := parseCMS(r2.Export())
+			if matrixStr(d2b.M) != matrixStr(d0.M) {
+				c.fail([]string{"C12", "C03", "C08"}, "cms-merge-shares-storage", fmt.Sprintf("%s: updating the source after a merge changed the sketch that had merged it", cfg), replay)
+				return
+			}
+			c.branch("merge-no-sharing")
+		}
+	}
 	c.branch("merge-ok")
 }
 
@@ -460,8 +495,12 @@ func cmsMismatch(c *Ctx) {
 				continue
 			}
 			c.rep.Cases++
-			A.Update([]byte("x"), 3)
-			B.Update([]byte("y"), 5)
+			if c.rng.Intn(2) == 0 { // receiver empty or not: a rejected merge never depends on the contents
+				A.Update([]byte("x"), 3)
+			}
+			if c.rng.Intn(3) != 0 {
+				B.Update([]byte("y"), 5)
+			}
 			da, _ := parseCMS(A.Export())
 			db, _ := parseCMS(B.Export())
 			var merr error
